@@ -26,12 +26,15 @@ def _run(ctx, ncases, nsteps):
   acc = Acc()
   for c in range(ncases):
     sleep = rng.random() < 0.25
-    opt = 'timestep="0.004"' + (' cone="elliptic"' if rng.random() < 0.4 else "")
+    sparse = rng.random() < 0.3
+    opt = 'timestep="0.004"' + (' cone="elliptic"' if rng.random() < 0.4 else "") + (' jacobian="sparse"' if sparse else "")
     crossed = c == 0
     if crossed:
+      sparse = False
       # two long thin free boxes: whether they touch depends on the ORIENTATION of the second one only, which differs per world —
       # the broadphase AABB/OBB filters (closure-built device functions the access table cannot see) must use each world's own pose
       sleep = False
+      opt = opt.replace(' jacobian="sparse"', '')
       wb = ('<body pos="0 0 0.5"><freejoint/><geom type="box" size=".3 .03 .03"/></body>'
             '<body pos="0 0.25 0.55"><freejoint/><geom type="box" size=".3 .03 .03"/></body>')
     else:
@@ -84,6 +87,12 @@ def _run(ctx, ncases, nsteps):
         for k, nm in enumerate(("qpos", "qvel", "qacc")):
           a, b, b2 = alone[s][k][0], batch[s][k][w], batch2[s][k][pos_in_perm]
           if not (np.array_equal(a, b) and np.array_equal(a, b2)):
+            if sparse and np.array_equal(b, b2) and np.allclose(a, b, rtol=2e-3, atol=2e-3 * (1 + np.abs(a).max())):
+              # recorded deviation: independent of the batch POSITION (b == b2 bitwise) but not of the batch SIZE, in the last bits:
+              # the sparse Newton Hessian J^T D J is accumulated in a number of row groups chosen from nworld (summation order)
+              acc.find(f"world {w}: {nm} at step {s} differs in the last bits between running alone and in a batch of {nworld} (max diff {np.abs(a - b).max():.3g}; same at every batch position)",
+                       "solver (_jtdaj_groups_per_world)", "batch-size-summation-order", xml=xml, world=w, step=s)
+              break
             acc.find(f"world {w}: {nm} at step {s} differs between running alone / at batch index {w} / at index {pos_in_perm} (max diff {max(np.abs(a - b).max(), np.abs(a - b2).max()):.3g})",
                      "forward.step", "batch-dependence", xml=xml, world=w, step=s, sleep=sleep)
             break
